@@ -323,6 +323,21 @@ func hashTable(q, signer name) string {
 	return strings.Join(parts, ",")
 }
 
+// hashTableFor: the hash table argument covering several names.
+func hashTableFor(ns []name, signer name) string {
+	seen := map[string]bool{}
+	var parts []string
+	for _, n := range ns {
+		for _, kv := range strings.Split(hashTable(n, signer), ",") {
+			if kv != "" && !seen[kv] {
+				seen[kv] = true
+				parts = append(parts, kv)
+			}
+		}
+	}
+	return strings.Join(parts, ",")
+}
+
 func secStr(secure bool, err error) string {
 	if err != nil {
 		return errStr(err)
@@ -529,6 +544,41 @@ func execNsec3(f []string) vlib.Res {
 					res.Oracle = "FAIL sig=nsec3/delegation/not-a-delegation-accepted"
 				case nd == nil && !restsOnOptOut(d, false):
 					res.Oracle = "FAIL sig=nsec3/delegation/no-owner-no-optout-accepted"
+				}
+			}
+		}
+		return res
+	case "wild":
+		signer, sigs := parseName(f[2]), parseAnsSigs(f[3])
+		resp := wildResponse(sigs, signer)
+		resp.Ns = dnsutil.FilterRRsToZone(curRR3, signer.pres())
+		secure, err := dnssec.VerifyWildcardAnswerForZoneWithWork(resp, signer.pres(), nil)
+		res := vlib.Res{Impl: secStr(secure, err), Oracle: "-", Tags: "unjudged"}
+		kind := curZ3.setKind(curSet3, true)
+		if signer.fold().eq(curZ3.z.apex) && kind != "other" {
+			res.Oracle, res.Tags = "ok", "rejected,"+kind
+			if err == nil {
+				res.Tags = "nt,accepted," + kind
+				expanded := false
+				opt := false
+				for _, g := range sigs {
+					if g.labels < len(g.owner) {
+						expanded = true
+						o := g.owner.fold()
+						if c := coverIn(curSet3, hashOf(o.suffix(g.labels+1), curZ3.salt, curZ3.iter)); c != nil && c.flags&1 == 1 {
+							opt = true
+						}
+					}
+				}
+				switch {
+				case kind == "mixed" && expanded:
+					res.Oracle = "FAIL sig=wild3/answer/mixed-set-accepted"
+				case secure && opt:
+					res.Oracle = "FAIL sig=wild3/answer/optout-marked-secure"
+				case secure:
+					if why := wildTruth(curZ3.z, sigs); why != "" && why != "unjudged" {
+						res.Oracle = "FAIL sig=wild3/answer/" + why
+					}
 				}
 			}
 		}
@@ -823,6 +873,19 @@ func genNsec3Case(r *vlib.R, emit func(string)) int {
 			cnt += 3
 			if r.Chance(1, 2) {
 				emit(fmt.Sprintf("h dlg %s %s %s", sg, q, hashTable(q, sg)))
+				cnt++
+			}
+		}
+		if r.Chance(1, 2) {
+			gs := genWildSigs(r, z)
+			var ns []name
+			for _, g := range gs {
+				if len(g.owner.wire()) <= 200 {
+					ns = append(ns, g.owner)
+				}
+			}
+			if len(ns) == len(gs) {
+				emit(fmt.Sprintf("h wild %s %s %s", genSigner(r, z), ansSigsStr(gs), hashTableFor(ns, z.apex)))
 				cnt++
 			}
 		}
